@@ -309,6 +309,11 @@ def durable_execution(
             invocation_input.initial_execution_state.next_marker,
         )
 
+        # The first page may hold only the EXECUTION operation (payload size limits) while later
+        # pages hold the history: decide replay mode on the complete history.
+        if len(execution_state.operations) > 1:
+            execution_state._replay_status = ReplayStatus.REPLAY  # noqa: SLF001
+
         durable_context: DurableContext = DurableContext.from_lambda_context(
             state=execution_state, lambda_context=context
         )
